@@ -5,6 +5,7 @@
   `datacore` correspondence runs against the real code (`Z.HashExec.*` = these, by `rfl`).
 -/
 import ZanVerif.Data.HashInvDel
+import ZanVerif.Data.HashToy
 
 namespace Z.Props.C09Hash
 open Z.HashInv Z.Ref
@@ -63,5 +64,13 @@ example : ([s1, s2, s3, s4, s5, s6].map (fun s => (Z.HashExec.hlen F s kk, (Z.Ha
 example : s4 = [] ∧ s6 = [] := by decide
 
 end concrete
+
+/-- the codec hypotheses are satisfiable as a whole: `Z.HashToy.toyEnc` is an instance of `Enc`, and the reachable-state
+    theorem applies to a concrete history over it -/
+example : ∀ k, hlen Z.HashToy.toyEnc ([HOp.hset [1] [2] [3], .hset [1] [4] [5], .hdel [1] [2], .hclear [1], .hset [7] [8] [9]].foldl
+      (applyOp Z.HashToy.toyEnc) []) k =
+    (scan ([HOp.hset [1] [2] [3], .hset [1] [4] [5], .hdel [1] [2], .hclear [1], .hset [7] [8] [9]].foldl
+      (applyOp Z.HashToy.toyEnc) []) (Z.HashToy.toyEnc.start k) (Z.HashToy.toyEnc.stop k)).length :=
+  fun k => (C09H_reachable Z.HashToy.toyEnc _ k).1
 
 end Z.Props.C09Hash
